@@ -845,7 +845,7 @@ impl Prop for C04 {
     }
     fn runs(&self, tier: Tier) -> u64 {
         match tier {
-            Tier::Quick => 40_000,
+            Tier::Quick => 70_000,
             Tier::Thorough => 2_000_000,
         }
     }
